@@ -70,7 +70,7 @@ def main():
     seeds = []
     for mp in sorted(glob.glob(os.path.join(HERE, "seeded", "*", "meta.json"))):
         m = json.load(open(mp))
-        if not m.get("caught_by"):
+        if not m.get("caught_by") or m.get("retired"):
             continue
         seeds.append((m["seed"], open(os.path.join(os.path.dirname(mp), "patch.diff"), encoding="utf-8").read(), m["caught_by"]))
     jobs = []
